@@ -256,13 +256,14 @@ def real_headers(rng, names, edges, funcs_only, force_hidden=False, force_shared
 
 
 def using_headers(names):
-    """The fixed scenario of the recorded finding "base-named-through-using-declaration": library 1 derives from a class of
-    library 0 that lives in a namespace and is named through a using-declaration."""
+    """The fixed scenario of the repaired finding "base-named-through-using-declaration": library 1 derives from a class of
+    library 0 that lives in a namespace (library 0 publishes it through a global typedef: interrogate does not scan namespaces
+    by itself) and that library 1 names through a using-declaration."""
     z, a = names[0], names[1]
     Z, A = z.capitalize(), a.capitalize()
     files = {
-        "%s/%s.h" % (z, z): "#ifndef %s_H\n#define %s_H\nnamespace NsU {\nclass %s_NB {\n__published:\n  %s_NB();\n  int get_z() const;\n};\n}\n"
-                            "__begin_publish\nint %s_function(int a);\n__end_publish\n#endif\n" % (Z.upper(), Z.upper(), Z, Z, z),
+        "%s/%s.h" % (z, z): "#ifndef %s_H\n#define %s_H\nnamespace NsU {\nclass %s_NB {\n__published:\n  %s_NB();\n  int get_z() const;\n};\n}\ntypedef NsU::%s_NB %s_NBT;\n"
+                            "__begin_publish\nint %s_function(int a);\n__end_publish\n#endif\n" % (Z.upper(), Z.upper(), Z, Z, Z, Z, z),
         "%s/%s.h" % (a, a): "#ifndef %s_H\n#define %s_H\n#include \"%s.h\"\nusing NsU::%s_NB;\nclass %s_D : public %s_NB {\n__published:\n  %s_D();\n  int d() const;\n};\n"
                             "__begin_publish\nint %s_function(int a);\n__end_publish\n#endif\n" % (A.upper(), A.upper(), z, Z, A, Z, A, a),
     }
@@ -388,7 +389,7 @@ def generate(ctx):
                 perms = [rng.shuffle(range(k)) for _ in range(24 if ctx.tier == "thorough" else 8)]
             plans.append({"id": base + ki * per + j, "variant": variant, "k": k, "graph": kind, "gseed": rng.next(), "perms": [list(p) for p in perms], "fault": None,
                           "funcs_only": [], "enum_only": [], "consts_only": [], "mode": "native", "extra": []})
-    # the scenario of the recorded finding "base-named-through-using-declaration", in every batch whatever the seed
+    # the scenario of the repaired finding "base-named-through-using-declaration", in every batch whatever the seed
     rng = run_rng(ctx.seed, NAME + "/using-decl", 0)
     plans.append({"id": len(plans), "variant": "real", "k": 2, "graph": "fan", "gseed": rng.next(), "perms": [[0, 1], [1, 0]],
                   "fault": None, "funcs_only": [], "enum_only": [], "consts_only": [], "mode": "native", "extra": [], "force_using": True})
@@ -586,8 +587,8 @@ def execute(plan):
             for (a, b) in sorted(LAST_INTENT):
                 if names[a] in libs and names[b] in libs and (names[a], names[b]) not in medges:
                     if (a, b) in LAST_USING:
-                        # the parser does not take "using NsU::X;" as introducing the class name X: the derivation is dropped
-                        # with a message and exit status 0 (known finding, DESIGN.md 13a)
+                        # the parser did not take "using NsU::X;" as introducing the class name X and dropped the derivation
+                        # with a message and exit status 0 (repaired, DESIGN.md 13a; reported again if it returns)
                         violations.append({"property": "C16", "class": "edge-not-recorded", "key": {"kind": "base-named-through-using-declaration"},
                                            "msg": "%s derives from a class of %s that it names through a using-declaration; interrogate dropped the derivation (model edges %s)" %
                                                   (names[a], names[b], sorted(medges))})
